@@ -62,6 +62,15 @@ NOTES = {
             "C13: BaseWorld.set_state::ensures:spin_follows_orbit[world.set_state(semi_major_axis);sync=1] (invariant added after this change was first missed)"),
  "C13a_3": ("LayeredTides.collapse_modes: global sums accumulated in place starting from the first layer's own array; the first tidal layer reports the global heating (arrays, >= 2 tidal layers)",
             "C13: LayeredTides.collapse_modes#global_sums[n]::frame:layer_results_unchanged (fragment executed with ndarray object semantics; added after this change was first missed)"),
+
+ "C08a_1": ("orderl3 trunc8: spurious alias [3][3] = [0][3] (a mode whose Hansen coefficient vanishes identically gets the value of its neighbour)", "C08: orderl3.py::eccentricity_funcs_trunc8::G2[3,3] (first run)"),
+ "C08a_2": ("mode_calc_helper: the (truncation 16, max l 6) helper takes the l = 5 table of truncation 14", "C08: eccen_calc_orderl6.py::eccentricity_truncation_16_maxl_6 (first run; native helper-vs-table replayer added)"),
+ "C08a_3": ("orderl4 trunc6: sign of the e^4 term of G^2_{4,1,1} flipped (and its alias (3,-1))", "C08: orderl4.py::eccentricity_funcs_trunc6::G2[1,1], G2[3,-1] (first run)"),
+
+ "C09a_1": ("orderl3 calc_inclination: cos_i = sqrt(1 - sin_i^2) loses the sign of cos I; wrong only for retrograde obliquities (I > 90 deg) and entries with odd powers of cos I",
+            "C09: orderl3.py::calc_inclination::entry(1,1),(1,2),(2,0),(2,1) (first run: tool fault on a non-polynomial entry; now exact refutation at rational points of the circle incl. retrograde ones, replay at I = 2.0 / 2.9 rad)"),
+ "C09a_2": ("universal_coeffs: l = 6, m = 6 entry halved (missing (2 - delta_0m))", "C09: universal_coeffs.py::get_universal_coeffs::l6m6 (first run; also C10 grouping_invariance at max l = 7)"),
+ "C09a_3": ("orderl7 calc_inclination_off: key (3,2) typed as (3,1)", "C09: orderl7.py::calc_inclination_off::entry(3,1) and entry(3,2) (first run)"),
 }
 for k, (needs, det) in NOTES.items():
     p = f"/verif/seeded/{k}/meta.json"
